@@ -44,7 +44,7 @@ func genCase(r *lib.Rng, id int64, tier string) Case {
 	if tier == "thorough" {
 		nops = r.Range(5, 200)
 		if r.Chance(1, 50) {
-			cap = 1 << 17
+			cap = 1 << 12
 			nops = r.Range(3, 12)
 		}
 	}
